@@ -16,6 +16,15 @@
 (*      (c) in the replay run: res / items also equal what the first run   *)
 (*          recorded for the same call, and the final write set and utxo   *)
 (*          sets equal the first run's (the property's own oracle).        *)
+(* Transfers: a call line carries the inputs the transfer took (sel, each   *)
+(* [own, i, amt]: which utxo of which sender) and the outputs it produced  *)
+(* (outs).  First run: the result is "err" iff the amount is zero or the   *)
+(* sender's free utxos do not cover it; a successful transfer took         *)
+(* distinct free utxos of the sender covering the amount (which ones and   *)
+(* in which order is the reader's business) and produced the payment and   *)
+(* the change.  Replay run: the specification's reader over the recorded   *)
+(* inputs gives the result and the inputs; both also have to equal the     *)
+(* first run's, transfer by transfer.                                      *)
 (* With KF_* deviations enabled (c) tolerates a difference only at a scan  *)
 (* in which one of the enabled deviations changed the result in either     *)
 (* run; the deviations used are collected in dev.                          *)
@@ -34,35 +43,42 @@ KeysOfRSet(rs) == {<<rs[i].b, rs[i].n>> : i \in 1..Len(rs)} \cap Keys
 BkOf(s) == [k \in Keys |-> s[CHOOSE i \in 1..Len(s) : s[i].b = k[1] /\ s[i].n = k[2]].st]
 Act(ev) ==
   CASE ev.op = "reset"    -> Reset
-    [] ev.op = "init"     -> Start(BkOf(ev.bk), ev.nu)
+    [] ev.op = "init"     -> Start(BkOf(ev.bk), ev.pool)
     [] ev.op = "get"      -> Get(<<ev.b, ev.n>>)
     [] ev.op = "put"      -> Put(<<ev.b, ev.n>>, ev.v)
     [] ev.op = "del"      -> Del(<<ev.b, ev.n>>)
     \* the input cache after a scan is the recorded one (look-ahead reads included): it is an observable
     \* (RWSet().RSet), constrained by RSetOkX, and what later scans of ACTUAL depend on
     [] ev.op = "select"   -> Select(ev.b, ev.lo, ev.hi, ev.lim, LAMBDA nd : {KeysOfRSet(ev.obs.rset)})
-    [] ev.op = "transfer" -> Transfer(ev.amt)
+    \* first run: the selection is the recorded one (judged by SelOk); replay run: the specification's own
+    [] ev.op = "transfer" -> Transfer(ev.from, ev.to, ev.amt, LAMBDA free, amt : {ev.sel}, ev.res = "ok")
     [] ev.op = "rwset"    -> Finish
-    [] ev.op = "replay"   -> Replay(ev.rset, Len(ev.uin))
+    [] ev.op = "replay"   -> Replay(ev.rset, ev.uin)
 
 IsCall(ev) == ev.op \in {"get", "put", "del", "select", "transfer"}
 (* R3: the property does not say whether an inverted range is an error or an empty scan *)
-ResOk(exp, act) == exp = act \/ (exp = "err" /\ act = "ok")
-UIn == [j \in 1..un' |-> UAmt]
+ResOk(op, exp, act) == exp = act \/ (op = "select" /\ exp = "err" /\ act = "ok")
 BagEq(s, t) == Len(s) = Len(t) /\ \A i \in 1..Len(s) : Cardinality({j \in 1..Len(s) : s[j] = s[i]}) = Cardinality({j \in 1..Len(t) : t[j] = s[i]})
 
+(* a transfer line: the inputs taken and the outputs produced *)
+SelOf(ev) == IF ev.op = "transfer" THEN ev.sel ELSE <<>>
+OutsOf(ev) == IF ev.op = "transfer" THEN ev.outs ELSE <<>>
+SelOk(ev) == ev.op = "transfer" =>
+               /\ LastEv.sel = ev.sel /\ BagEq(LastEv.outs, ev.outs)
+               /\ (mode = "xm" /\ ev.res = "ok") => CoveringSel(pool, uin, ev.from, ev.amt, ev.sel)
 (* (a) + (b) for a call line *)
-CallOk(ev) == /\ ResOk(LastEv.res, ev.res) /\ LastEv.items = ev.items
+CallOk(ev) == /\ ResOk(ev.op, LastEv.res, ev.res) /\ LastEv.items = ev.items /\ SelOk(ev)
               /\ RSetOkX(bk', req', out', mode', ev.obs.rset)
               /\ ev.obs.wset = WSetSeq(out')
 (* (c) for a call line of the replay run *)
-Agrees(ev)   == prev[nops'].res = ev.res /\ prev[nops'].items = ev.items
+Agrees(ev)   == /\ prev[nops'].res = ev.res /\ prev[nops'].items = ev.items
+                /\ prev[nops'].sel = SelOf(ev) /\ prev[nops'].outs = OutsOf(ev)
 Excused(ev)  == ev.op = "select" /\ (prev[nops'].dv \cup LastEv.dv) # {}
 ReplayOk(ev) == mode' = "rs" => (nops' <= Len(prev) /\ (Agrees(ev) \/ Excused(ev)))
 (* the final line of a run: read / write set after Flush, utxo sets, transient utxo records decoded *)
 FinOk(ev) == /\ RSetOkX(bk', req', out', mode', ev.rset)
              /\ ev.wset = WSetSeq(out')
-             /\ ev.uin = UIn /\ BagEq(ev.uout, uout')      \* the order of the utxo outputs is not the property's business ...
+             /\ ev.uin = uin' /\ BagEq(ev.uout, uout')      \* the order of the utxo outputs is not the property's business ...
              /\ ev.tuin = ev.uin /\ ev.tuout = ev.uout      \* Flush wrote exactly the utxo sets into the transient bucket
              \* ... but the replay has to reproduce it exactly (it is part of the write set)
              /\ mode' = "rs" => (ev.wset = fin1.wset /\ ev.uout = fin1.uout /\ ev.uin = fin1.uin /\ nops' = Len(prev))
@@ -81,7 +97,7 @@ TStep ==
   /\ LET ev == Trace[l] IN
      /\ Act(ev)
      /\ prev' = IF ev.op = "reset" THEN <<>>
-                ELSE IF IsCall(ev) /\ mode' = "xm" THEN Append(prev, [res |-> ev.res, items |-> ev.items, dv |-> LastEv.dv])
+                ELSE IF IsCall(ev) /\ mode' = "xm" THEN Append(prev, [res |-> ev.res, items |-> ev.items, dv |-> LastEv.dv, sel |-> SelOf(ev), outs |-> OutsOf(ev)])
                 ELSE prev
      /\ fin1' = IF ev.op = "reset" THEN NoFin
                 ELSE IF ev.op = "rwset" /\ mode' = "xm" THEN [rset |-> ev.rset, wset |-> ev.wset, uin |-> ev.uin, uout |-> ev.uout]
@@ -92,20 +108,23 @@ TStep ==
                      expres |-> IF IsCall(ev) THEN LastEv.res ELSE "ok", actres |-> ev.res,
                      exp |-> [items |-> IF IsCall(ev) THEN LastEv.items ELSE <<>>, wset |-> WSetSeq(out'),
                               rset_must_include |-> KeySeq(req'), mode |-> mode',
-                              utxo |-> IF ev.op = "rwset" THEN [uin |-> UIn, uout |-> uout'] ELSE [uin |-> <<>>, uout |-> <<>>],
+                              utxo |-> IF ev.op = "rwset" THEN [uin |-> uin', uout |-> uout']
+                                       ELSE IF ev.op = "transfer" THEN [uin |-> LastEv.sel, uout |-> LastEv.outs]
+                                       ELSE [uin |-> <<>>, uout |-> <<>>],
                               first_run |-> IF IsCall(ev) /\ mode' = "rs" /\ nops' <= Len(prev)
-                                            THEN [res |-> prev[nops'].res, items |-> prev[nops'].items]
+                                            THEN [res |-> prev[nops'].res, items |-> prev[nops'].items, sel |-> prev[nops'].sel, outs |-> prev[nops'].outs]
                                             ELSE IF ev.op = "rwset" /\ mode' = "rs" THEN [res |-> "ok", items |-> <<>>, wset |-> fin1.wset, uout |-> fin1.uout]
                                             ELSE [res |-> "", items |-> <<>>]],
                      act |-> [mode |-> mode',
                               first_run |-> IF IsCall(ev) /\ mode' = "rs" /\ nops' <= Len(prev)
-                                            THEN [res |-> prev[nops'].res, items |-> prev[nops'].items]
+                                            THEN [res |-> prev[nops'].res, items |-> prev[nops'].items, sel |-> prev[nops'].sel, outs |-> prev[nops'].outs]
                                             ELSE IF ev.op = "rwset" /\ mode' = "rs" THEN [res |-> "ok", items |-> <<>>, wset |-> fin1.wset, uout |-> fin1.uout]
                                             ELSE [res |-> "", items |-> <<>>],
                               items |-> IF IsCall(ev) THEN ev.items ELSE <<>>,
                               wset |-> IF IsCall(ev) THEN ev.obs.wset ELSE IF ev.op = "rwset" THEN ev.wset ELSE <<>>,
                               rset |-> IF IsCall(ev) THEN ev.obs.rset ELSE IF ev.op \in {"rwset", "replay"} THEN ev.rset ELSE <<>>,
                               utxo |-> IF ev.op = "rwset" THEN [uin |-> ev.uin, uout |-> ev.uout, tuin |-> ev.tuin, tuout |-> ev.tuout]
+                                       ELSE IF ev.op = "transfer" THEN [uin |-> ev.sel, uout |-> ev.outs]
                                        ELSE [uin |-> <<>>, uout |-> <<>>]]]
   /\ l' = l + 1
 TSpec == TInit /\ [][TStep]_tvars
